@@ -113,9 +113,14 @@ def run_op(ctx, i):
     V = rng.normal(size=K) + 1j * rng.normal(size=K)
     results = {}
     for preload in (False, True):
-        ok, T = ctx.guarded("transformer.construct", lambda: aa.TransformerDFT(uv_wavelengths=uv.copy(), real_space_mask=mask, preload_transform=preload))
+        uv_arg = uv.copy()            # float64 array owned by the caller ...
+        ok, T = ctx.guarded("transformer.construct", lambda: aa.TransformerDFT(uv_wavelengths=uv_arg, real_space_mask=mask, preload_transform=preload))
         if not ok:
             continue
+        # ... who goes on to build the next channel's baselines in the same array: the transformer stays the operator of the baselines
+        # it was built from
+        uv_arg *= 1.07
+        uv_arg[0] += 3.0
         tag = dict(preload=preload, **W)
         for storage in ("slim", "native"):
             img = aa.Array2D(values=full.copy(), mask=mask, store_native=(storage == "native"))
@@ -146,7 +151,9 @@ def run_op(ctx, i):
         ctx.classes["visibilities_given_as:" + form] += 1
         tag = dict(tag, visibilities_given_as=form)
         vis_obj = aa.Visibilities(visibilities=Vin)
-        ok, im = ctx.guarded("adjoint", lambda: T.image_from(visibilities=vis_obj))
+        adj_kw = ({}, {"use_adjoint_scaling": False}, {"use_adjoint_scaling": True})[i % 3]     # the direct sum already is the exact adjoint
+        tag = dict(tag, image_from_keywords=adj_kw)
+        ok, im = ctx.guarded("adjoint", lambda: T.image_from(visibilities=vis_obj, **adj_kw))
         if ok:
             exp = np.real(A.conj().T @ V)
             nat = np.zeros(m.shape)
